@@ -42,7 +42,9 @@ Proof.
           simpl; intros [= <-]; try reflexivity. destruct v; reflexivity.
       + destruct cast; [destruct v|]; simpl; intros [= <-]; try reflexivity. destruct v; reflexivity.
       + destruct (arg_value r); try discriminate. destruct v; try discriminate.
-        intros [= <-]. reflexivity. }
+        intros [= <-]. reflexivity.
+      + destruct cast; [destruct v as [s|b]; simpl; [destruct (cast_other ko_default ko_table s); try discriminate|discriminate]|];
+          simpl; intros [= <-]; try reflexivity. destruct v; reflexivity. }
   rewrite H, H. reflexivity.
 Qed.
 
